@@ -301,8 +301,8 @@ def adc(img, gain, saturation_capacity=None, warn_saturate=False, dtype=None):
             if np.any(img > saturation_capacity):
                 warnings.warn('Frame has saturated pixels.')
 
-        # Apply the saturation limit
-        img[img > saturation_capacity] = saturation_capacity
+        # Apply the saturation limit (without touching the caller's frame)
+        img = np.where(img > saturation_capacity, saturation_capacity, img)
 
     # Determine the polynomial order
     gain = np.asarray(gain)
